@@ -550,7 +550,7 @@ def gen_elementwise(ctx, op):
     pool = _vector_units(ctx)
     ins_units = []
     for _ in range(n_in):
-        us = ctx.perm(ctx.subset(pool, 0.65))
+        us = ctx.perm(ctx.subset(pool, 1.0 if getattr(ctx, "flags", {}).get("full_inputs") else 0.65))
         ins_units.append(_with_diagonal(ctx, us))
     union = _dedupe([u for us in ins_units for u in us])
     out_units = _out_units(ctx, union)
